@@ -34,6 +34,7 @@ func makeOverlayTags(yields bool, tags string) string {
 	}
 	cmd := exec.Command(filepath.Join(verifDir, "bin", "instrument"), args...)
 	cmd.Env = goEnv()
+	cmd.Dir = repoDir // module-internal packages resolve from inside the module
 	out, err := cmd.CombinedOutput()
 	if err != nil {
 		inconclusive("instrumenting /repo failed (does it compile?): %v\n%s", err, out)
@@ -118,7 +119,7 @@ func runSchedBatch(bin string, seed uint64, n, workers int, deadline time.Time, 
 				if i < 2 {
 					args = append(args, "-keeptrace")
 				}
-				ctx, cancel := context.WithTimeout(context.Background(), 6*time.Minute)
+				ctx, cancel := context.WithTimeout(context.Background(), 150*time.Second)
 				cmd := exec.CommandContext(ctx, bin, args...)
 				logPrefix := fmt.Sprintf("race_%d_%d", w, i)
 				cmd.Env = append(os.Environ(), "GOMAXPROCS=2", "GORACE=halt_on_error=1 atexit_sleep_ms=0 log_path="+filepath.Join(scratch, logPrefix))
@@ -184,17 +185,31 @@ func runSchedBatch(bin string, seed uint64, n, workers int, deadline time.Time, 
 // generated code (library frames only further up the stack) is not a finding.
 func libraryFrames(report string) bool {
 	lines := strings.Split(report, "\n")
+	isAccess := func(t string) bool {
+		return strings.HasPrefix(t, "Read at ") || strings.HasPrefix(t, "Write at ") || strings.HasPrefix(t, "Previous read at ") ||
+			strings.HasPrefix(t, "Previous write at ") || strings.HasPrefix(t, "Atomic ") || strings.HasPrefix(t, "Previous atomic ")
+	}
 	for i, l := range lines {
-		t := strings.TrimSpace(l)
-		if strings.HasPrefix(t, "Read at ") || strings.HasPrefix(t, "Write at ") || strings.HasPrefix(t, "Previous read at ") ||
-			strings.HasPrefix(t, "Previous write at ") || strings.HasPrefix(t, "Atomic ") || strings.HasPrefix(t, "Previous atomic ") {
-			// the frame that follows: "  func()" then "      file:line +0x.."
-			for j := i + 1; j < len(lines) && j <= i+2; j++ {
-				loc := strings.TrimSpace(lines[j])
-				if strings.HasPrefix(loc, repoDir+"/") && !strings.Contains(loc, "zz_verif_gen.go") {
-					return true
-				}
+		if !isAccess(strings.TrimSpace(l)) {
+			continue
+		}
+		// walk down the stack: "  func()" / "      file:line +0x.." pairs; frames of the Go
+		// runtime and standard library (map access, memmove, atomics) are skipped, the
+		// first remaining frame is the accessing statement
+		for j := i + 1; j+1 < len(lines); j += 2 {
+			fn := strings.TrimSpace(lines[j])
+			loc := strings.TrimSpace(lines[j+1])
+			if fn == "" || isAccess(fn) || strings.HasPrefix(fn, "Goroutine ") || strings.HasPrefix(fn, "==") {
+				break
 			}
+			if strings.HasPrefix(loc, "/usr/lib/go") || strings.HasPrefix(loc, "/opt/veriftools/go") || strings.Contains(loc, "/go/src/") ||
+				strings.HasPrefix(fn, "runtime.") || strings.HasPrefix(fn, "sync/atomic.") || strings.HasPrefix(fn, "internal/") {
+				continue
+			}
+			if strings.HasPrefix(loc, repoDir+"/") && !strings.Contains(loc, "zz_verif_gen.go") {
+				return true
+			}
+			break
 		}
 	}
 	return false
@@ -397,8 +412,9 @@ func checkC18(ca *checkArgs) int {
 	}
 	// data races under controlled schedules
 	harnessOnly := 0
-	for k, r := range rb.races {
-		if k >= 2 {
+	reported := 0
+	for _, r := range rb.races {
+		if reported >= 2 {
 			break
 		}
 		if !libraryFrames(r.report) {
@@ -444,6 +460,7 @@ func checkC18(ca *checkArgs) int {
 		fmt.Printf("VIOLATION property=C18 replay=%s\n", path)
 		replayFiles = append(replayFiles, path)
 		code = 1
+		reported++
 	}
 	if harnessOnly > 0 {
 		problems = append(problems, "race reports whose accesses are not in library code (harness defect)")
